@@ -2123,6 +2123,7 @@ GENERATORS = {
     "GenAggNames.v": lambda src: translate_aggnames(src / "table.py"),
     "GenCsv.v": lambda src: translate_file(src / "csv.py", fresh(CSV_KERNELS), "GenCsv", IMPORTS_CSV),
     "GenReduce.v": lambda src: __import__("harness.translate_reduce", fromlist=["translate_reduce"]).translate_reduce(src),
+    "GenPartition.v": lambda src: __import__("harness.translate_partition", fromlist=["translate_partition"]).translate_partition(src),
 }
 
 
@@ -2180,6 +2181,7 @@ SCRIPTS = [            # (committed proof script, generated modules it needs)
     ("EqSort.v", ["GenSort.v"]),
     ("EqAggNames.v", ["GenAggNames.v"]),
     ("EqReduce.v", ["GenReduce.v"]),
+    ("EqPartition.v", ["GenPartition.v"]),
 ]
 NEEDED_VO = ["Base/GenPrelude", "Props/C04", "Props/C07", "Props/C18", "Props/C11", "Props/C16", "Props/C05", "Props/C19", "Props/C14", "Props/C06", "Props/C12"]
 BUDGET = float(__import__("os").environ.get("SERIF_TRANSLATE_BUDGET", "28"))   # seconds for one run()
